@@ -1,4 +1,95 @@
-/- driver operations of C13 (stub: no model yet) -/
+import EvoModel.Model.ResultMerge
+import EvoModel.Model.StrHex
+/-! driver operations of C13 (merging and tabulating results) -/
 namespace Evo.Drv.C13
-def handle (_op : String) (_args : List String) : Option String := none
+open Evo Evo.ResultMerge Evo.StrHex
+
+/-- read `n` items with `f` -/
+def readN {α} (f : List String → Option (α × List String)) : Nat → List String → Option (List α × List String)
+  | 0, l => some ([], l)
+  | n+1, l => do
+      let (a, l) ← f l
+      let (r, l) ← readN f n l
+      some (a :: r, l)
+
+def readCounted {α} (f : List String → Option (α × List String)) (l : List String) : Option (List α × List String) :=
+  match l with
+  | [] => none
+  | k :: rest => do
+      let n ← k.toNat?
+      readN f n rest
+
+def readInfo (l : List String) : Option ((String × String) × List String) :=
+  match l with
+  | k :: v :: rest => do some ((← unhex k, ← unhex v), rest)
+  | _ => none
+
+def readStat (l : List String) : Option ((String × Rat) × List String) :=
+  match l with
+  | k :: v :: rest => do some ((← unhex k, ← parseRat? v), rest)
+  | _ => none
+
+def readArr (l : List String) : Option ((String × List Rat) × List String) :=
+  match l with
+  | k :: rest => do
+      let k ← unhex k
+      let (a, rest) ← readRatList rest
+      some ((k, a), rest)
+  | _ => none
+
+/-- `ni (hexk hexv)* ns (hexk rat)* na (hexk k rat…)*` -/
+def readRes (l : List String) : Option (Res × List String) := do
+  let (i, l) ← readCounted readInfo l
+  let (s, l) ← readCounted readStat l
+  let (a, l) ← readCounted readArr l
+  some (⟨i, s, a⟩, l)
+
+def readFileRes (l : List String) : Option ((String × Res) × List String) :=
+  match l with
+  | f :: rest => do
+      let f ← unhex f
+      let (r, rest) ← readRes rest
+      some ((f, r), rest)
+  | _ => none
+
+def showStats (s : Dict Rat) : String :=
+  " ".intercalate (toString s.length :: s.map fun p => hex p.1 ++ " " ++ showRat p.2)
+
+def showRes (r : Res) : String :=
+  " ".intercalate [
+    " ".intercalate (toString r.info.length :: r.info.map fun p => hex p.1 ++ " " ++ hex p.2),
+    showStats r.stats,
+    " ".intercalate (toString r.arrays.length :: r.arrays.map fun p =>
+      hex p.1 ++ " " ++ " ".intercalate (toString p.2.length :: p.2.map showRat))]
+
+def showErr : Err → String
+  | .noResults => "E_NORESULTS"
+  | .keyMismatch => "E_KEYS"
+  | .broadcast => "E_BROADCAST"
+  | .duplicateLabels => "E_DUP"
+
+/-- ops:
+  `merge N res…` / `mergeold N res…` → `OK A|C res` (A = averaged, C = concatenated) | `E_…`
+  `table useFilenames merge N (hexfile res)…` → `OK nrows (hexlabel stats)…` | `E_…` -/
+def handle (op : String) (args : List String) : Option String :=
+  match op, args with
+  | "merge", rest => do
+      let (rs, _) ← readCounted readRes rest
+      match mergeResults rs with
+      | .error e => some (showErr e)
+      | .ok r => some ("OK " ++ (if average rs then "A " else "C ") ++ showRes r)
+  | "mergeold", rest => do
+      let (rs, _) ← readCounted readRes rest
+      match mergeResultsOld rs with
+      | .error e => some (showErr e)
+      | .ok r => some ("OK " ++ (if averageOld rs then "A " else "C ") ++ showRes r)
+  | "table", uf :: mg :: rest => do
+      let uf ← (if uf = "1" then some true else if uf = "0" then some false else none)
+      let mg ← (if mg = "1" then some true else if mg = "0" then some false else none)
+      let (fs, _) ← readCounted readFileRes rest
+      match resultTable fs uf mg with
+      | .error e => some (showErr e)
+      | .ok t => some ("OK " ++ " ".intercalate (toString t.length :: t.map fun p => hex p.1 ++ " " ++ showStats p.2))
+  | _, _ => none
+
 end Evo.Drv.C13
